@@ -17,7 +17,7 @@ def run(ctx):
     ]
     ctx.lean(props=["Props.C07"], drivers=["drv_c07"])
     ctx.harness("./cmd/c07")
-    ctx.diff(area="quadtree", driver="drv_c07", n={"quick": 60000, "thorough": 3000000}, stateful=True,
+    ctx.diff(area="quadtree", driver="drv_c07", n={"quick": 200000, "thorough": 3000000}, stateful=True,
              trivial=lambda l, o: o == "ok",
              tagger=lambda l, o: l.split()[0] if not l.startswith("reset") else "reset " + " ".join(l.split()[1:]),
              theorem="C07.abs_run / size_run / find_eq_filter / bool_iff_find_nonempty (model = linear scan); "
